@@ -254,7 +254,9 @@ theorem lc5_shape (cfg : Cfg) (e : Endian) (t : Ty) (f : Val) (hwf : wfVal cfg .
   cases t with
   | prim _ => simp [Ty.lc5] at h5
   | str => simp [Ty.lc5] at h5
-  | enum _ _ => simp [Ty.lc5] at h5
+  | enum _ _ _ => simp [Ty.lc5] at h5
+  | wstr => simp [Ty.lc5] at h5
+  | union _ _ => simp [Ty.lc5] at h5
   | arr _ _ => simp [Ty.lc5] at h5
   | struct x ms =>
     cases x with
